@@ -656,6 +656,11 @@ func (f *MemFile) Write(b []byte) (n int, err error) {
 		return 0, &fs.PathError{Op: op, Path: f.name, Err: err}
 	}
 
+	if len(b) == 0 {
+		// nothing to write: the offset and the file are left as they are.
+		return 0, nil
+	}
+
 	nd.mu.Lock()
 
 	if f.openMode&avfs.OpenAppend != 0 {
